@@ -56,8 +56,8 @@ def main():
     compiles = "could not compile" not in o
     meta["ran"].append({"cmd": "cargo test --offline --test seed_demo   (with patch)", "failed_as_expected": demo_fails, "tail": o[-500:]})
     os.remove(os.path.join(WT, "tests", "seed_demo.rs"))
-    rc, o = sh("cargo test --workspace --no-fail-fast --offline 2>&1 | grep -E '^test result|FAILED|failed|error(\\[|:)' ", cwd=WT)
-    suite_ok = "FAILED" not in o and "failed" not in o and "error" not in o and o.count("test result: ok") >= 10
+    rc, o = sh("cargo test --workspace --no-fail-fast --offline 2>&1 | grep -E '^test result|^error' ", cwd=WT)
+    suite_ok = "test result: FAILED" not in o and "error: " not in o and "error[" not in o and o.count("test result: ok") >= 10
     meta["ran"].append({"cmd": "cargo test --workspace --no-fail-fast --offline   (with patch, existing suite)", "passed": suite_ok, "summary": o[-600:]})
     meta["confirmed"] = bool(base_ok and demo_fails and suite_ok and compiles)
     # our checks against the patched tree
